@@ -381,7 +381,9 @@ def oracle_cg(ctx, c, got, case):
     # edges
     pairs = [(min(i, j), max(i, j)) for i, j, _, _ in got["edges"]]
     if any(i == j for i, j, _, _ in got["edges"]):
-        ctx.violation(key0 + ":self-loop", "coarse graph has a self-loop", case, impl=pairs)
+        loops = sorted(set(i for i, j, _, _ in got["edges"] if i == j))
+        ctx.violation(key0 + ":self-loop", "coarse graph of %d groups has self-loops on groups %s (first: surface %s, distance %s)" % (
+            ng, loops[:8], *[(str(a), str(b)) for i, j, a, b in got["edges"] if i == j][0]), case, impl=loops[:50])
     if len(set(pairs)) != len(pairs):
         ctx.violation(key0 + ":duplicate-edge", "coarse graph has duplicate edges", case, impl=pairs)
     if set(pairs) != set(bf["edges"]):
